@@ -45,6 +45,8 @@ inductive Slot where
   | era
   /-- Duration: total hours / minutes / seconds (getters only; the bucket adds them into hours24 / minutes / seconds) -/
   | totalHours | totalMinutes | totalSeconds
+  /-- the calendar of the value (accessor) / of the parse bucket (`_LocalDateParseBucket._calendar`), as ordinal -/
+  | calendar
   deriving DecidableEq, Repr
 
 /-- one format-action / parse-action pair -/
@@ -73,6 +75,10 @@ inductive Step where
   | era
   /-- `c` -/
   | calendar
+  /-- `g` / `gg` in a pattern whose template value is in the single-era calendar of ordinal `cal` (3 … 18): the parse
+      action tries the names of that calendar's only era (`_parse_era` iterates `self._calendar.eras()`; the bucket's
+      calendar is the template's, since a pattern cannot have both `g` and `c`) -/
+  | eraC (cal : Nat)
   deriving DecidableEq, Repr
 
 /-- the part of `_PyodaFormatInfo` the text engine reads -/
@@ -105,6 +111,10 @@ structure Culture where
   eraNamesCE : List Text := []
   eraPrimaryBCE : Text := []
   eraPrimaryCE : Text := []
+  /-- the same for the eras of the other calendars, in the order anno martyrum (Coptic), anno mundi (Hebrew), anno
+      persico, anno hegirae, Bahá'í (era ids 2 … 6; 0 = BCE, 1 = CE) -/
+  eraNamesX : List (List Text) := []
+  eraPrimaryX : List Text := []
   deriving Repr
 
 /-- template value of a LocalDateTime pattern (ISO calendar): date fields and nanosecond of day -/
@@ -118,6 +128,17 @@ structure Tmpl where
 /-- `LocalDateTimePattern._DEFAULT_TEMPLATE_VALUE` = 2000-01-01T00:00 -/
 def Tmpl.default : Tmpl := ⟨2000, 1, 1, 0⟩
 
+/-- template value in any calendar (ordinal `cal`): date fields and nanosecond of day (unused by LocalDate patterns) -/
+structure TmplC where
+  cal : Nat
+  y : Int
+  m : Int
+  d : Int
+  nod : Int
+  deriving DecidableEq, Repr
+
+def Tmpl.toC (tm : Tmpl) : TmplC := ⟨0, tm.y, tm.m, tm.d, tm.nod⟩
+
 inductive PType where
   | time | date | offset
   /-- LocalDateTime pattern whose template value is `tm` (ISO calendar) -/
@@ -125,6 +146,10 @@ inductive PType where
   /-- AnnualDate pattern whose template value is month `tm`, day `td` -/
   | annual (tm td : Int)
   | duration
+  /-- LocalDate pattern whose template value is `tc` (any calendar; `.date` = 2000-01-01 ISO) -/
+  | dateC (tc : TmplC)
+  /-- LocalDateTime pattern whose template value is `tc` (any calendar) -/
+  | datetimeC (tc : TmplC)
   deriving DecidableEq, Repr
 
 /-- builder state: used fields and the steps so far (in order) -/
@@ -379,6 +404,8 @@ def handleChar (ty : PType) (cu : Culture) (c : Char) (rest : Text) (st : CSt) :
   | .datetime _ => handleDateTime cu c rest st
   | .annual _ _ => handleAnnual cu c rest st
   | .duration => handleDuration cu c rest st
+  | .dateC _ => handleDate cu c rest st
+  | .datetimeC _ => handleDateTime cu c rest st
 
 /-- `_parse_custom_pattern`: `while cursor.move_next(): handler(cursor, builder)`.  A handler that consumed `k`
     further characters leaves the cursor on the last of them, so the loop continues after `rest.drop k`.
